@@ -514,7 +514,13 @@ Fixpoint bounds_grids {A} (l : list A) (lo : nat) (idx : list nat) : list (list 
   | hi :: r => py_slice l lo hi :: bounds_grids l hi r
   end.
 
-Definition tf_grid_batch (o : op) (kw : Z) (argks : list tkind) : gres :=
+(* grids[start : start + num] for the pieces of a split, in order *)
+Definition slice_grids {A} (l : list A) (offs : list (nat * nat)) : list (list A) :=
+  map (fun os => py_slice l (fst os) (fst os + snd os)) offs.
+
+(* dimv: kwargs["dim"], else the positional dim of cat(tensors, dim) / split functions (input, arg, dim), else 0;
+   nd0: number of dimensions of the first argument that has grids (negative dims are normalised with it) *)
+Definition tf_grid_batch (o : op) (dimv : Z) (nd0 : nat) (argks : list tkind) : gres :=
   let grids := flat_map (fun k => match k with
                                   | TBatch _ gs => [gs]
                                   | TSingle _ g => [[g]]      (* an Image inside a list argument; unreachable for valid data *)
@@ -523,23 +529,25 @@ Definition tf_grid_batch (o : op) (kw : Z) (argks : list tkind) : gres :=
   match grids with
   | [] => GNone
   | g0 :: _ =>
-      if (kw =? 0)%Z then
+      let dim := if (dimv <? 0)%Z then (dimv + Z.of_nat nd0)%Z else dimv in
+      let n := length g0 in
+      if (dim =? 0)%Z then
         match o with
         | OCat _ => GFlat (concat grids)
-        | OSplit size _ => GNested (chunks (length g0) size g0)
-        | OSplitL sizes _ | OSplitSizes sizes _ => GNested (map (fun num => firstn num g0) sizes)   (* start is never advanced *)
-        | OTSplitN k _ => GNested (chunks (length g0) k g0)                                      (* sections used as a chunk size *)
+        | OSplit size _ =>           (* for start in range(0, max(len(grids), 1), size): grids[start : start + size] *)
+            GNested (slice_grids g0 (offsets 0 (if n =? 0 then [0] else int_sizes n size)))
+        | OSplitL sizes _ | OSplitSizes sizes _ => GNested (slice_grids g0 (offsets 0 sizes))
+        | OTSplitN k _ => GNested (slice_grids g0 (offsets 0 (tsplit_sizes n k)))
         | OTSplitI idx _ => GNested (bounds_grids g0 0 idx)
         | _ => GFlat g0
         end
       else GFlat g0
   end.
 
-(* the "dim" entry of kwargs as the dispatcher sees it: torch.split / Tensor.split always pass dim by keyword *)
+(* the dim the dispatcher sees: keyword or positional alike *)
 Definition kw_of (o : op) : Z :=
   match o with
-  | OSplit _ d | OSplitL _ d => dim_value d
-  | OCat d | OStack d | OSplitSizes _ d | OTSplitN _ d | OTSplitI _ d | OChunk _ d | OUnbind d => dim_kw d
+  | OCat d | OStack d | OSplit _ d | OSplitL _ d | OSplitSizes _ d | OTSplitN _ d | OTSplitI _ d | OChunk _ d | OUnbind d => dim_value d
   | _ => 0%Z
   end.
 
@@ -570,13 +578,14 @@ Definition res_batch (sh : shape) (grid : option (list gid)) : kres :=
       if (ndim sh =? length (gshape g0) + 2) && (nent sh =? length gs) && shape_eqb (skipn 2 sh) (gshape g0)
       then mk_batch None sh gs else KOk TPlain
   end.
-(* FlowFields._torch_function_result: note that the batch size is not compared with len(grid) *)
+(* FlowFields._torch_function_result *)
 Definition res_flow (sh : shape) (grid : option (list gid)) (ax : option axes) : kres :=
   match grid, ax with
   | Some ((g0 :: _) as gs), Some a =>
-      if (ndim sh =? length (gshape g0) + 2) && (nth 1 sh 0 =? length (gshape g0)) && shape_eqb (skipn 2 sh) (gshape g0)
+      if (ndim sh =? length (gshape g0) + 2) && (nent sh =? length gs) && (nth 1 sh 0 =? length (gshape g0))
+         && shape_eqb (skipn 2 sh) (gshape g0)
       then mk_batch (Some a) sh gs else res_batch sh grid
-  | Some [], Some a => if (4 <=? ndim sh) && (nent sh =? 0) then mk_batch (Some a) sh [] else res_batch sh grid
+  | Some [], Some a => if (4 <=? ndim sh) && (nent sh =? 0) && (nth 1 sh 0 =? ndim sh - 2) then mk_batch (Some a) sh [] else res_batch sh grid
   | _, _ => res_batch sh grid
   end.
 (* Image._torch_function_result / FlowField._torch_function_result *)
@@ -624,7 +633,8 @@ Definition flat_of (g : gres) : option (list gid) := match g with GFlat gs => So
 Definition dispatch_batch (flowcls : bool) (o : op) (args0 : list tval) : ores :=
   let args := if flowcls then args0 else map to_batch args0 in
   let ks := map t_kind args in
-  let grid := tf_grid_batch o (kw_of o) ks in
+  let nd0 := hd 0 (flat_map (fun a => match t_kind a with TPlain => [] | _ => [ndim (t_shape a)] end) args) in
+  let grid := tf_grid_batch o (kw_of o) nd0 ks in
   match data_sem o (map t_shape args) with
   | DErr e => OErr e
   | DOne d =>
@@ -646,21 +656,22 @@ Definition dispatch_batch (flowcls : bool) (o : op) (args0 : list tval) : ores :
       | None => OErr EValue
       | Some ax =>
           if is_split_class o then
-            if flowcls then
-              (* every piece is checked against the whole grid object *)
-              match grid with
-              | GNested (_ :: _) => OErr EAttr                (* grid[0] is a list: no attribute ndim *)
-              | GNested [] => tuple_of (map (fun d => (d, res_flow (d_shape d) (Some []) ax)) ds)
-              | _ => tuple_of (map (fun d => (d, res_flow (d_shape d) (flat_of grid) ax)) ds)
-              end
-            else
-              match grid with
-              | GNested gss =>
-                  if negb (length gss =? length ds) then OErr EAssert
-                  else if negb (forallb (fun dg => nent (d_shape (fst dg)) =? length (snd dg)) (combine ds gss)) then OErr EAssert
-                  else tuple_of (map (fun dg => (fst dg, res_batch (d_shape (fst dg)) (Some (snd dg)))) (combine ds gss))
-              | _ => OErr EAssert
-              end
+            (* a flat grid list (split along another dimension) is replicated for every piece *)
+            let nested := match grid with
+                          | GNone => None
+                          | GFlat gs => Some (repeat gs (length ds))
+                          | GNested [] => Some (repeat [] (length ds))          (* all(...) of an empty list is True *)
+                          | GNested gss => Some gss
+                          end in
+            match nested with
+            | None => OErr (if flowcls then EType else EAssert)
+            | Some gss =>
+                if flowcls then      (* zip(data, grid): no length checks *)
+                  tuple_of (map (fun dg => (fst dg, res_flow (d_shape (fst dg)) (Some (snd dg)) ax)) (combine ds gss))
+                else if negb (length gss =? length ds) then OErr EAssert
+                else if negb (forallb (fun dg => nent (d_shape (fst dg)) =? length (snd dg)) (combine ds gss)) then OErr EAssert
+                else tuple_of (map (fun dg => (fst dg, res_batch (d_shape (fst dg)) (Some (snd dg)))) (combine ds gss))
+            end
           else OTuple (map plain_out ds)     (* a tuple is returned as is: plain tensors *)
       end
   end.
@@ -747,8 +758,7 @@ Definition grid_index (gs : list gid) (i : index) : gsel :=
   | IInt z => match norm_idx n z with Some e => GSOne (nth e gs 0) | None => GSErr end
   | ISlice a b c => match slice_sel n a b c with Some l => GSMany (map (fun e => nth e gs 0) l) | None => GSErr end
   | IList l => match norm_idxs n l with Some l' => GSMany (map (fun e => nth e gs 0) l') | None => GSErr end
-  | IBools l => if forallb (fun b : bool => (if b then 1 else 0) <? n) l
-                then GSMany (map (fun b : bool => nth (if b then 1 else 0) gs 0) l) else GSErr
+  | IBools l => GSMany (map (fun e => nth e gs 0) (true_pos 0 l))      (* mask.nonzero().flatten().tolist() *)
   | IEll => GSErr
   end.
 
@@ -779,11 +789,7 @@ Definition getitem_finish (fl : option axes) (sh : shape) (gs : list gid) (multi
 
 Definition getitem_batch (fl : option axes) (sh : shape) (gs : list gid) (f : gform) : ores :=
   match f with
-  | GOne IEll =>
-      match gs with
-      | [] => OErr EIndex
-      | g0 :: _ => one_kind (mkD sh (ident_src 0 (nent sh))) (make_instance fl sh (repeat g0 (nent sh)))   (* self.grid() is grid 0 *)
-      end
+  | GOne IEll => one_kind (mkD sh (ident_src 0 (nent sh))) (make_instance fl sh gs)
   | GOne (IInt z) => getitem_finish fl sh gs false [IInt z]
   | GOne i => getitem_finish fl sh gs true [i]
   | GTup l => match resolve_ell (ndim sh) l with
@@ -794,6 +800,7 @@ Definition getitem_batch (fl : option axes) (sh : shape) (gs : list gid) (f : gf
 
 (* the whole user-visible operation on [cur; other...] *)
 Definition run_op (o : op) (args : list tval) : ores :=
+  let _ := gaxes in     (* Axes.from_grid: no longer consulted (from_images passes the axes on); kept in the signature *)
   let cur := nth 0 args (mkT [] TPlain) in
   let sh := t_shape cur in
   match o with
@@ -811,7 +818,7 @@ Definition run_op (o : op) (args : list tval) : ores :=
           let gl := map (fun e => nth e gs 0) sel in
           match how, fl, gl with
           | _, _, [] => OErr ERuntime                                            (* cat / collate of an empty list *)
-          | BFromImages, Some _, g0 :: _ => one_kind d (mk_batch (Some (gaxes g0)) (d_shape d) gl)   (* cls(data, grid): axes not passed on *)
+          | BFromImages, Some ax, _ => one_kind d (mk_batch (Some ax) (d_shape d) gl)                 (* axes of the first FlowField *)
           | BCollate, Some ax, _ => one_kind d (mk_batch (Some ax) (d_shape d) gl)
           | _, None, _ => one_kind d (mk_batch None (d_shape d) gl)
           end
@@ -826,12 +833,13 @@ Definition run_op (o : op) (args : list tval) : ores :=
       | _, _ => OErr EType
       end
   | ONarrowM z st len =>
-      (* ImageBatch.narrow: grid = self._grid; dim == 0 -> grid[start : start + length]; dim > 1 -> every grid narrowed
-         (not modelled); any other value of dim (1, or a negative dimension) leaves the grids as they are *)
+      (* ImageBatch.narrow: dim normalised; dim == 0 -> grid[start : start + length]; dim > 1 -> every grid narrowed
+         (not modelled); dim == 1 leaves the grids as they are *)
       match t_kind cur, data_sem o [sh] with
       | TBatch fl gs, DOne d =>
-          if (z =? 0)%Z then one_kind d (make_instance fl (d_shape d) (py_slice gs st (st + len)))
-          else if (1 <? z)%Z then OErr ERuntime
+          let z' := if (z <? 0)%Z then (z + Z.of_nat (ndim sh))%Z else z in
+          if (z' =? 0)%Z then one_kind d (make_instance fl (d_shape d) (py_slice gs st (st + len)))
+          else if (1 <? z')%Z then OErr ERuntime
           else one_kind d (make_instance fl (d_shape d) gs)
       | _, DErr e => OErr e
       | _, _ => OErr EType
@@ -839,10 +847,7 @@ Definition run_op (o : op) (args : list tval) : ores :=
   | OCopy c =>
       match t_kind cur with
       | TPlain => OOne (mkO sh TPlain (ident_src 0 (nent sh)))
-      | k => match c, kind_axes k with
-             | CCopy, Some _ => OErr EType             (* FlowField(s)._make_instance() requires 'data' *)
-             | _, _ => OOne (mkO sh k (ident_src 0 (nent sh)))
-             end
+      | k => OOne (mkO sh k (ident_src 0 (nent sh)))
       end
   | OAppend =>
       let other := nth 1 args (mkT [] TPlain) in
